@@ -294,6 +294,15 @@ func Drive(o DriveOpts) int {
 	}
 	wg.Wait()
 
+	selftest := ""
+	if o.Tier == "thorough" || os.Getenv("VERIF_SELFTEST") != "" {
+		nst := 48
+		if rc := SelfTest(o.Prop, o.Seed, nst, o.Self); rc != 0 {
+			a.infra = append(a.infra, "determinism self-test failed: the same seeds produced different traces in different processes")
+		} else {
+			selftest = fmt.Sprintf("%d runs x 3 fresh processes at GOMAXPROCS 1/4/16: identical per-run trace hashes, step counts and outcomes", nst)
+		}
+	}
 	known := loadKnown(o.KnownPath)
 	exit := 0
 	// group violations by signature
@@ -312,6 +321,18 @@ func Drive(o DriveOpts) int {
 	for _, s := range sigs {
 		if k := matchKnown(known, o.Prop, s); k != nil {
 			knownSeen[k.Signature] += len(bySig[s])
+			if os.Getenv("VERIF_SAVE_KNOWN") != "" && k.Witness != "" {
+				// (maintenance mode) refresh the committed witness replay of a known finding
+				o2 := o
+				o2.ReplayDir = filepath.Join(o.ReplayDir, "tmp-known")
+				path := writeReplay(o2, p, bySig[s][0], true)
+				dst := filepath.Join(filepath.Dir(o.ReplayDir), k.Witness)
+				os.MkdirAll(filepath.Dir(dst), 0o755)
+				if b, err := os.ReadFile(path); err == nil {
+					os.WriteFile(dst, b, 0o644)
+				}
+				os.RemoveAll(o2.ReplayDir)
+			}
 			continue
 		}
 		// a violation the known-findings file does not list
@@ -342,7 +363,7 @@ func Drive(o DriveOpts) int {
 	}
 	wall := time.Since(start).Seconds()
 	if exit != 2 {
-		if err := writeEvidence(o, p, a, wall, len(newViol), knownSeen); err != nil {
+		if err := writeEvidence(o, p, a, wall, len(newViol), knownSeen, selftest); err != nil {
 			fmt.Fprintln(os.Stderr, "evidence:", err)
 			exit = 2
 		}
@@ -625,7 +646,7 @@ func Try(path string) int {
 	return 0
 }
 
-func writeEvidence(o DriveOpts, p Property, a *agg, wall float64, newViol int, knownSeen map[string]int) error {
+func writeEvidence(o DriveOpts, p Property, a *agg, wall float64, newViol int, knownSeen map[string]int, selftest string) error {
 	if o.Evidence == "" {
 		return nil
 	}
